@@ -93,7 +93,7 @@ def r1_r2(ctx):
                         later = [m2 for m2 in ops if m2.call.bb != r.bb and m2.call.bb in after and x.bb in b.reachable(b.succ[m2.call.bb])]
                         if later:
                             continue
-                        ctx.bad("C11.R2", [b.id, "delta-from-snapshot", x.bb],
+                        ctx.bad("C11.R2", [b.id, "delta-from-snapshot", c["usage"]],
                                 "%s subtracts from `%s` a size that was read before the removal (from a dropped guard / cloned snapshot), not the "
                                 "size of the entry the removal returned: if the entry was replaced in between, the counter is off by the difference" % (b.id, c["usage"]),
                                 x.loc(), {"remove": r.loc()})
